@@ -10,6 +10,15 @@
 (*                         distinct cycle becomes a stress recipe that is  *)
 (*                         replayed on the real Session by harness/c20.    *)
 (*   MC_Locks_live.cfg     call ~> return under weak fairness              *)
+(*   MC_Locks_hyp.cfg      the repaired transcription with two design rules*)
+(*                         of the command protocol dropped (generator):    *)
+(*                         - the Response channels have no buffer          *)
+(*                         - a command is sent to the loop from inside a   *)
+(*                           write transaction (AddTracker)                *)
+(*                         the lock-up cycles TLC finds are the            *)
+(*                         interleavings in which the rule matters; they   *)
+(*                         are replayed on the real Session as PROBES      *)
+(*                         (a hang there is judged like any other hang).   *)
 (***************************************************************************)
 EXTENDS Locks, Json
 
@@ -41,6 +50,18 @@ Nop == << <<"-", "">> >>          \* a client that does nothing (a configuration
 ChoicesQ == ChoicesAll1 \o Nop
 
 AnyPick(f) == TRUE
+\* the operations that talk to the loop of t1, close it, or make it write: every pair of them
+ChoicesHyp == <<
+    <<"Session.RemoveTorrent", "t1">>, <<"Session.StopAll", "">>, <<"Session.Close", "">>,
+    <<"Torrent.Start", "t1">>, <<"Torrent.Stop", "t1">>, <<"Torrent.Verify", "t1">>, <<"Torrent.AddTracker", "t1">>,
+    <<"Torrent.Stats", "t1">>, <<"Torrent.Move", "t1">>, <<"-", "">> >>
+PairsHyp(f) == ChoicesHyp[f[3]][1] = "-" /\ ChoicesHyp[f[2]][1] # "-"
+
+\* the tree as it is: step sequences extracted from the sources for the operations that equal no transcription of ProgV
+\* (props/c20.py rewrites this definition in its scratch copy; NoOver when the sources are transcribed exactly)
+SrcOverDef == NoOver
+\* hypothetical: AddTracker hands the tracker to the loop before its write transaction is committed
+HypSendInTx == ("Torrent.AddTracker" :> <<S("DBB", "Update"), S("SEND", "addTrackersCommandC"), S("DBE", "Update")>>)
 \* quick tier: every PAIR of operations, and every TRIPLE of the operations with nested acquisitions / registry writers
 Core5 == {"Session.AddTorrent", "Session.RemoveTorrent", "Session.StartAll", "Session.Close", "Torrent.Stop"}
 PairsAndCoreTriples(f) ==
@@ -56,6 +77,7 @@ BgOne   == << <<"Session.updateStats", "", 1>> >>
 \* generator: print every lock-up state (props/c20.py groups them into cycles)
 Report ==
     IF Lockup
-    THEN PrintT("@@" \o ToJson([kind |-> "lockup", procs |-> {Describe(p) : p \in Involved}]))
+    THEN PrintT("@@" \o ToJson([kind |-> "lockup", procs |-> {Describe(p) : p \in Involved},
+                                  ops |-> {who[p][1] : p \in Clients} \ {"-"}]))
     ELSE TRUE
 =============================================================================
